@@ -1045,38 +1045,56 @@ impl<R: RefCounter, PR: PathRefCounter, H: Header> Memory<R, PR, H> {
       // in Drop impls, c.f. https://github.com/rust-lang/lang-team/issues/97
 
       #[cfg(all(feature = "memmap", not(target_family = "wasm")))]
-      match &mut self.backend {
-        MemoryBackend::MmapMut {
-          buf,
-          file,
-          path,
-          remove_on_drop,
-          ..
-        } => {
-          if remove_on_drop.load(Ordering::Acquire) {
-            let _ = Box::from_raw(*buf);
-            core::ptr::drop_in_place(file);
-            let _ = std::fs::remove_file(path.as_path());
-            return;
+      {
+        let remove = match &self.backend {
+          MemoryBackend::MmapMut { remove_on_drop, .. } | MemoryBackend::Mmap { remove_on_drop, .. } => {
+            remove_on_drop.load(Ordering::Acquire)
           }
+          _ => false,
+        };
 
+        if remove {
+          // Take the backend apart, so that the file is closed exactly once (here, before it is
+          // removed) and not a second time when `Memory` itself is dropped.
+          let backend = mem::replace(
+            &mut self.backend,
+            MemoryBackend::Vec(
+              AlignedVec {
+                ptr: ptr::NonNull::dangling(),
+                cap: 0,
+                align: 1,
+              },
+              PhantomData,
+            ),
+          );
+          match backend {
+            MemoryBackend::MmapMut {
+              buf, file, path, ..
+            } => {
+              let _ = Box::from_raw(buf);
+              drop(file);
+              let _ = std::fs::remove_file(path.as_path());
+            }
+            MemoryBackend::Mmap {
+              buf, file, path, ..
+            } => {
+              let _ = Box::from_raw(buf);
+              drop(file);
+              let _ = std::fs::remove_file(path.as_path());
+            }
+            _ => {}
+          }
+          return;
+        }
+      }
+
+      #[cfg(all(feature = "memmap", not(target_family = "wasm")))]
+      match &mut self.backend {
+        MemoryBackend::MmapMut { buf, file, .. } => {
           let _ = Box::from_raw(*buf);
           let _ = file.sync_all();
         }
-        MemoryBackend::Mmap {
-          path,
-          file,
-          buf,
-          remove_on_drop,
-          ..
-        } => {
-          if remove_on_drop.load(Ordering::Acquire) {
-            let _ = Box::from_raw(*buf);
-            core::ptr::drop_in_place(file);
-            let _ = std::fs::remove_file(path.as_path());
-            return;
-          }
-
+        MemoryBackend::Mmap { buf, .. } => {
           let _ = Box::from_raw(*buf);
         }
         _ => {}
